@@ -12,6 +12,13 @@ SameDisp(real, spec) ==
        /\ real[i].name = spec[i].name /\ real[i].argc = spec[i].argc
        /\ real[i].ok = 1                                     \* every argv[k] is a NUL-terminated string inside the line buffer
        /\ real[i].argv = spec[i].argv
+(* every entry into a command function, first call and each resumption after a yield: the drivers register name -> function *)
+(* number (sum of the codes mod 2), and a command yields Len(name) % 3 times                                               *)
+RECURSIVE SumCodes(_)
+SumCodes(nm) == IF nm = <<>> THEN 0 ELSE Head(nm) + SumCodes(Tail(nm))
+FnId(nm) == SumCodes(nm) % 2
+RECURSIVE CallsOf(_)
+CallsOf(ds) == IF ds = <<>> THEN <<>> ELSE [i \in 1..(1 + (Len(ds[1].name) % 3)) |-> FnId(ds[1].name)] \o CallsOf(Tail(ds))
 RECURSIVE Feed(_, _, _)
 Feed(l, s, acc) == IF s = <<>> THEN [line |-> l, disps |-> acc]
                    ELSE LET r == CharF(l, Head(s)) IN Feed(r.line, Tail(s), acc \o Captured(r.disp))
@@ -33,12 +40,21 @@ TraceNext ==
      CASE ev.e = "Reset" -> line' = <<>> /\ table' = Builtins /\ disp' = <<>> /\ regret' = 0 /\ nchars' = 0 /\ prompted' = FALSE
        [] ev.e = "Reg" -> Register(ev.name) /\ ev.r = regret' /\ UNCHANGED prompted
        [] ev.e = "Char" -> /\ Char(ev.c) /\ SameDisp(ev.disp, Captured(disp')) /\ ev.line = line'
+                           /\ ev.calls = CallsOf(Captured(disp'))
                            /\ OutOK(ev.out, ev.pr, OutF(line, ev.c), ~prompted) /\ prompted' = TRUE     \* what the console printed
        [] ev.e = "Eval" ->                                   \* console_eval: executed once, and the injection completes
             LET f == Feed(line, ev.s, <<>>) IN
-            /\ ev.done = 1 /\ SameDisp(ev.disp, f.disps) /\ ev.line = f.line
+            /\ ev.done = 1 /\ SameDisp(ev.disp, f.disps) /\ ev.line = f.line /\ ev.calls = CallsOf(f.disps)
             /\ prompted' = TRUE
             /\ line' = f.line /\ disp' = <<>> /\ UNCHANGED <<table, regret, nchars>>
+       [] ev.e = "Two" ->                                    \* two consoles side by side: each is an instance of this machine of its own
+            LET fa == Feed(line, ev.la, <<>>)
+                fb == Feed(<<>>, ev.lb, <<>>) IN
+            /\ SameDisp(ev.da, fa.disps) /\ SameDisp(ev.db, fb.disps)
+            /\ ev.ca = CallsOf(fa.disps) /\ ev.cb = CallsOf(fb.disps)
+            /\ ev.line = fa.line /\ ev.lineb = fb.line
+            /\ prompted' = TRUE
+            /\ line' = fa.line /\ disp' = <<>> /\ UNCHANGED <<table, regret, nchars>>
        [] OTHER -> FALSE
 TraceSpec == TraceInit /\ [][TraceNext]_<<vars, ti, prompted>>
 TraceAccepted ==
